@@ -27,6 +27,12 @@ class _Values(PyModel):
     def __iter__(self):
         return iter(self.rows)
 
+    def __getitem__(self, i):
+        return self.rows[i]
+
+    def __len__(self):
+        return len(self.rows)
+
     def tolist(self):
         return [list(r) for r in self.rows]
 
